@@ -21,6 +21,7 @@ from pathlib import Path
 from typing import Any, Dict, List, Tuple
 
 from ..core import Ctx, MachineryError
+from ..projects import waiting_modules as P_waiting
 from .. import families, procrun
 from .. import projects as P
 from .c02 import testpackages
@@ -143,7 +144,7 @@ def discover_phase(ctx: Ctx, rng: random.Random) -> None:
             system.systemBuilder(system).addModule(root)
         finally:
             model.System.msg = orig
-        real = [{"name": m.fullName().split("."), "pkg": isinstance(m, model.Package)} for m in system.unprocessed_modules]
+        real = [{"name": m.fullName().split("."), "pkg": isinstance(m, model.Package)} for m in P_waiting(system)]
         shutil.rmtree(d, ignore_errors=True)
         ctx.traces += 1
         if real != got.get(i):
@@ -308,7 +309,7 @@ def replay(ctx: Ctx, path: str) -> int:
         root = realise_tree(w["tree"], ctx.scratch / "replaytree")
         system = model.System()
         system.systemBuilder(system).addModule(root)
-        real = [{"name": m.fullName().split("."), "pkg": isinstance(m, model.Package)} for m in system.unprocessed_modules]
+        real = [{"name": m.fullName().split("."), "pkg": isinstance(m, model.Package)} for m in P_waiting(system)]
         bad = real == w["real"]
     elif "project" in o:
         proj = {**o["project"], "family": o.get("family", ""), "meta": {"cyclic": o.get("cyclic", False)}}
